@@ -309,25 +309,44 @@ class Cut:
             return None
         ex = core.cur()
         fs = [EV.of(v) for v in arg.a]
+        keys = _prefix_keys(fs)
         for i, f in enumerate(fs[:self.k]):
+            if ('lemma', keys[i][-3:]) in ex.shared:
+                continue
             r, m = ex.prove(_b(And(f.fin(), f.v >= 0)), timeout_ms=10000)
             self.lemmas += 1
             if r != 'unsat':
                 self.failed.append((i, r, m))
                 return None
+            ex.shared[('lemma', keys[i][-3:])] = (True, [])
         out = []
         for j in range(len(fs)):
-            _fresh[0] += 1
-            q = _fresh[0]
-            if j < self.k:
-                v = z3.Real(f"T!{q}")
-                ex.axiom(v >= 0)
-                out.append(EV(v))
-            else:
+            def make(j=j):
+                _fresh[0] += 1
+                q = _fresh[0]
+                if j < self.k:
+                    v = z3.Real(f"T!{q}")
+                    return EV(v), [v >= 0]
                 v, bi, bn = z3.Real(f"T!{q}"), z3.Bool(f"Tinf!{q}"), z3.Bool(f"Tnan!{q}")
-                ex.axiom(z3.Implies(bi, z3.Or(v == 1, v == -1)))
-                out.append(EV(v, bi, bn))
+                return EV(v, bi, bn), [z3.Implies(bi, z3.Or(v == 1, v == -1))]
+            out.append(ex.define(('cutprod', self.k, keys[j]), make))
         return npmodel.Arr(out)
+
+
+def _prefix_keys(fs):
+    """identity keys of the factor prefixes f_1..f_j (term ids after simplification; the terms are kept alive by the caller)"""
+    keys = []
+    key = ()
+    for f in fs:
+        parts = (z3.simplify(f.v), f.inf if isinstance(f.inf, bool) else z3.simplify(f.inf),
+                 f.nan if isinstance(f.nan, bool) else z3.simplify(f.nan))
+        _KEEP.append(parts)
+        key = key + tuple(p if isinstance(p, bool) else p.get_id() for p in parts)
+        keys.append(key)
+    return keys
+
+
+_KEEP = []      # keeps keyed terms alive so that z3 ast ids are not reused within a process
 
 
 class SharedCut:
